@@ -641,7 +641,7 @@ def check_tables(sol):
     for n, b in sol.buffers.items():
         if js["buffers"][n]["level"] != b.level or js["buffers"][n]["level_change_times"] != b.level_change_times:
             problems.append(f"json buffer {n} differs")
-    # excel: write for real, read the sheet XML back
+    # excel: write for real, read the three sheets back (cells: (row, column) -> text / number / None for a blank styled cell)
     tmp = tempfile.mkdtemp(prefix="c16x_")
     fn = os.path.join(tmp, "s.xlsx")
     try:
@@ -652,21 +652,44 @@ def check_tables(sol):
 
         z = zipfile.ZipFile(fn)
         shared = re.findall(r"<si><t[^>]*>(.*?)</t></si>", z.read("xl/sharedStrings.xml").decode())
-        sheet2 = z.read("xl/worksheets/sheet2.xml").decode()  # task view
-        for i, (n, ts) in enumerate(sol.tasks.items()):
-            rowxml = re.search(rf'<row r="{i + 2}"[^>]*>(.*?)</row>', sheet2)
-            cells = re.findall(r'<c r="([A-Z]+)\d+"', rowxml.group(1)) if rowxml else []
-            cols = sorted(_col(c) for c in cells)
-            name_cell = re.search(rf'<c r="A{i + 2}"[^>]*t="s"><v>(\d+)</v>', sheet2)
-            if not name_cell or shared[int(name_cell.group(1))] != n:
-                problems.append(f"excel task view: first column of row {i + 2} does not hold the task name {n}")
-            data_cols = [c for c in cols if c > 0]
-            if ts.scheduled:
-                want = list(range(ts.start + 1, max(ts.start + 1, ts.end) + 1))
-                if data_cols != want:
-                    problems.append(f"excel task view: task {n} [{ts.start},{ts.end}] occupies columns {data_cols}, expected {want}")
-            elif data_cols:
-                problems.append(f"excel task view: unscheduled task {n} occupies columns {data_cols}")
+
+        def read_sheet(k):
+            xml = z.read(f"xl/worksheets/sheet{k}.xml").decode()
+            cells = {}
+            for m in re.finditer(r'<c r="([A-Z]+)(\d+)"([^>]*?)(?:/>|>(.*?)</c>)', xml):
+                col, row, attrs, body = _col(m.group(1)), int(m.group(2)) - 1, m.group(3), m.group(4)
+                val = None
+                if body:
+                    v = re.search(r"<v>(.*?)</v>", body)
+                    if v:
+                        val = shared[int(v.group(1))] if 't="s"' in attrs else (float(v.group(1)) if "." in v.group(1) else int(v.group(1)))
+                cells[(row, col)] = val
+            return cells
+
+        def check_view(cells, view, rows):
+            """rows: [(first-column label, [(text, start, end)])]"""
+            for i, (label, items) in enumerate(rows):
+                r = i + 1
+                if cells.get((r, 0)) != label:
+                    problems.append(f"excel {view}: first column of row {r + 1} holds {cells.get((r, 0))!r}, expected {label!r}")
+                want_cols = {}
+                for text, s_, e_ in items:
+                    for c in range(s_ + 1, max(s_ + 1, e_) + 1):
+                        want_cols[c] = text if c == s_ + 1 else None
+                got_cols = {c: v for (rr, c), v in cells.items() if rr == r and c > 0}
+                if sorted(got_cols) != sorted(want_cols):
+                    problems.append(f"excel {view}: row of {label} occupies columns {sorted(got_cols)}, expected {sorted(want_cols)}")
+                else:
+                    for c, text in want_cols.items():
+                        if text not in (None, "") and got_cols[c] != text:  # (an empty text is written as a blank cell)
+                            problems.append(f"excel {view}: cell of {label} at column {c} shows {got_cols[c]!r}, expected {text!r}")
+
+        check_view(read_sheet(1), "resource view", [(rn, [(tn, s_, e_) for tn, s_, e_ in rs.assignments]) for rn, rs in sol.resources.items()])
+        check_view(read_sheet(2), "task view", [(n, ([(",".join(ts.assigned_resources), ts.start, ts.end)] if ts.scheduled else [])) for n, ts in sol.tasks.items()])
+        ind = read_sheet(3)
+        for i, (iname, ival) in enumerate(sol.indicators.items()):
+            if ind.get((i + 1, 0)) != iname or ind.get((i + 1, 1)) != ival:
+                problems.append(f"excel indicators: row {i + 2} shows ({ind.get((i + 1, 0))!r}, {ind.get((i + 1, 1))!r}), expected ({iname!r}, {ival!r})")
     except Exception as e:
         problems.append(f"excel export failed: {type(e).__name__}: {e}")
     finally:
